@@ -199,7 +199,7 @@ class Ctx:
             futs = [ex.submit(lambda kw=kw: self.tlc(**kw)) for kw in jobs]
             return [f.result() for f in futs]
 
-    def tlc_eval(self, module, inp=None, env=None, timeout=900, lines=False, note=None):
+    def tlc_eval(self, module, inp=None, env=None, timeout=900, lines=False, note=None, cfg="CHECK_DEADLOCK FALSE\n"):
         """Constant-level evaluation: module has `ASSUME JsonSerialize(IOEnv.OUT_FILE, ...)` and reads
         IOEnv.IN_FILE (json, or ndjson when lines=True).  Returns the parsed OUT_FILE."""
         e = dict(env or {})
@@ -214,7 +214,7 @@ class Ctx:
             e["IN_FILE"] = f
         out = self.newfile(module + "_out", "json")
         e["OUT_FILE"] = out
-        r = self.tlc(module, "CHECK_DEADLOCK FALSE\n", env=e, workers=1, timeout=timeout, expect_ok=False,
+        r = self.tlc(module, cfg, env=e, workers=1, timeout=timeout, expect_ok=False,
                      count=False, note=note or "eval")
         if not os.path.exists(out):
             tail = "\n".join(r.out.splitlines()[-40:])
